@@ -4,7 +4,8 @@ From Ucfg Require Export Base ParseInt Consts Field Tree PathOps Merge OTree F64
 
 Inductive xobs := XV (t : otree) | XE (r : ereason) | XPanic | XHang.
 
-Inductive tfield := TStr (k : string) | TList (k : string) (n : nat) | TSlice (k : string).
+Inductive tfield := TStr (k : string) | TList (k : string) (n : nat) | TSlice (k : string) | TRe (k : string).
+    (* TRe: a *regexp.Regexp field (the setting's text is a valid expression): reported by its source text *)
 
 Inductive case :=
 | CRead (o : eopts) (root : value) (name : string) (idx : Z) (observed : obs)   (* Config.String *)
@@ -262,6 +263,12 @@ Definition spec_typed (o : eopts) (root : value) (fs : list tfield) : styped :=
        | Some None => STErr
        | None => STAny
        end
+     | TRe k :: r =>
+       match rd k (-1) with
+       | Some (Some s) => go r ((k, OStr s) :: acc)
+       | Some None => STErr
+       | None => STAny
+       end
      | TList k n :: r =>
        match ents k O n with
        | Some (Some l) => go r ((k, OList l) :: acc)
@@ -323,13 +330,22 @@ Fixpoint typed_eqb (spec got : list (string * otree)) : bool :=
    then change values, but it only ever replaces an evaluation by the primitive value an earlier
    one gave).  Judged where no reference walks a path through another value and no resolver
    answers: there a primitive is accepted wherever another value is. *)
+Fixpoint has_dot (s : string) : bool :=
+  match s with
+  | EmptyString => false
+  | String a r => (byte_of a =? 46)%N || has_dot r
+  end.
+(* the name an operator looks up is a constant of one segment; no computed names (a cached
+   primitive in the place of another text would name another setting) *)
+Definition const_name (e : vexp) : bool :=
+  match e with EConst n => negb (has_dot n) | _ => false end.
 Fixpoint exp_simple (e : vexp) : bool :=
   match e with
   | EConst _ => true
   | ERef p _ => (List.length p <=? 1)%nat
   | ESplice ps => forallb exp_simple ps
-  | ESingle x _ => exp_simple x
-  | EDefault l r _ | EAlt l r _ | EErr l r _ => exp_simple l && exp_simple r
+  | ESingle _ _ => false
+  | EDefault l r _ | EAlt l r _ | EErr l r _ => const_name l && exp_simple r
   end.
 Fixpoint refs_simple (v : value) : bool :=
   match v with
